@@ -373,4 +373,47 @@ theorem spec_setTransactionMode (cf : Cfg) (q p : Bool) (con : Nat) (s : St) (hG
       simp [setTransactionMode, conCursor, hin, himm, hd, hfk, hl, hpre, fkAfter, dirtyAfter] <;>
       (repeat' split) <;> simp_all [G, WBF, lockState, CFr, Fr3]
 
+/-- what `release` guarantees: the connection is idle in the pool or gone, nothing is locked -/
+def RelPost (cf : Cfg) (q p : Bool) (con : Nat) (s s' : St) : Prop :=
+  G cf q p s' ∧ s'.lock = false ∧ s'.cache.inTx = false ∧ CFr s.cache s'.cache ∧ s'.dirty = false ∧
+  s'.hasCache = s.hasCache ∧ (s'.poolCon = some con ∨ s'.poolCon = none)
+
+theorem spec_baseRelease (cf : Cfg) (q p : Bool) (con : Nat) (s : St) (hG : G cf q p s) (hc : s.poolCon = some con)
+    (hin : s.cache.inTx = false) (hl : s.lock = false) :
+    wp (baseRelease cf con) (fun _ s' => RelPost cf q p con s s') (fun _ s' => RelPost cf q p con s s' ∧ q = false) s := by
+  simp only [baseRelease, wp_wrap, wp_ite]
+  split
+  · refine wp_mono (spec_provDrop cf q p con s hG (by rw [hl, hin]) hc) ?_ ?_
+    · intro _ s' h; simp_all [RelPost]
+    · intro _ s' h; obtain ⟨h, hq⟩ := h; (try subst hq); simp_all [RelPost]
+  · refine wp_mono (spec_poolRelease cf q p con s hG hc) ?_ ?_
+    · intro _ s' h; simp_all [RelPost, PoolFr, CFr]
+    · intro _ s' h; obtain ⟨h, hq⟩ := h; (try subst hq); simp_all [RelPost, PoolFr, CFr]
+
+theorem spec_provRelease (cf : Cfg) (q p : Bool) (con : Nat) (s : St) (hG : G cf q p s) (hc : s.poolCon = some con)
+    (hin : s.cache.inTx = false) (hl : s.lock = false) :
+    wp (provRelease cf con) (fun _ s' => RelPost cf q p con s s') (fun _ s' => RelPost cf q p con s s' ∧ q = false) s := by
+  simp only [provRelease, wp_wrap, wp_bind, wp_getS, wp_ite, wp_tryCatch, conCursor, wp_dbcall, wp_conExecute, wp_raise, wp_pure]
+  split
+  · obtain ⟨hA, hW, hF⟩ := hG
+    rcases FlF_cases hF with ⟨hf, hq, hF1⟩ | ⟨hf, hF1⟩
+    · subst hq
+      simp only [hf, if_true]
+      refine wp_mono (spec_poolDrop cf false p con _ ⟨hA, by simpa using hW, hF1⟩ hc) ?_ ?_
+      · intro _ s' h; simp_all [RelPost, PoolFr, CFr]
+      · intro _ s' h; obtain ⟨h, hq⟩ := h; (try subst hq); simp_all [RelPost, PoolFr, CFr]
+    · rcases FlF_cases hF1 with ⟨hf2, hq, hF2⟩ | ⟨hf2, hF2⟩
+      · subst hq
+        simp only [hf, hf2, if_true, if_false, Bool.false_eq_true]
+        refine wp_mono (spec_poolDrop cf false p con _ ⟨hA, by simpa using hW, hF2⟩ hc) ?_ ?_
+        · intro _ s' h; simp_all [RelPost, PoolFr, CFr]
+        · intro _ s' h; obtain ⟨h, hq⟩ := h; (try subst hq); simp_all [RelPost, PoolFr, CFr]
+      · simp only [hf, hf2, if_false, Bool.false_eq_true]
+        refine wp_mono (spec_baseRelease cf q p con _ ⟨hA, by simpa using hW, hF2⟩ hc hin hl) ?_ ?_
+        · intro _ s' h; simp_all [RelPost, PoolFr, CFr]
+        · intro _ s' h; obtain ⟨h, hq⟩ := h; (try subst hq); simp_all [RelPost, PoolFr, CFr]
+  · refine wp_mono (spec_baseRelease cf q p con s hG hc hin hl) ?_ ?_
+    · intro _ s' h; exact h
+    · intro _ s' h; exact h
+
 end PonyVerif.Model.ConnLock
